@@ -126,6 +126,30 @@ func isScalarElem(t types.Type) (ew int, isBool, signed, ok bool) {
 	return 0, false, false, false
 }
 
+// flatArray reports whether t is an array whose leaves are scalars (possibly nested arrays);
+// such arrays are stored flattened in one BArrV (row-major) with total leaf count n.
+func flatArray(t types.Type) (n int, ew int, isBool, signed, ok bool) {
+	a, isA := t.Underlying().(*types.Array)
+	if !isA {
+		return 0, 0, false, false, false
+	}
+	if ew, isB, sg, ok := isScalarElem(a.Elem()); ok {
+		return int(a.Len()), ew, isB, sg, true
+	}
+	if m, ew, isB, sg, ok := flatArray(a.Elem()); ok {
+		return int(a.Len()) * m, ew, isB, sg, true
+	}
+	return 0, 0, false, false, false
+}
+
+// flatStride is the number of leaf cells per element of array type a.
+func flatStride(a *types.Array) int {
+	if m, _, _, _, ok := flatArray(a.Elem()); ok {
+		return m
+	}
+	return 1
+}
+
 func isFloatT(t types.Type) bool {
 	b, ok := t.Underlying().(*types.Basic)
 	return ok && b.Info()&types.IsFloat != 0
@@ -170,8 +194,8 @@ func (e *Engine) Zero(t types.Type) Value {
 		return StructV{F: f}
 	case *types.Array:
 		n := int(u.Len())
-		if ew, isB, sg, ok := isScalarElem(u.Elem()); ok {
-			return BArrV{A: c.ConstArr(ew, c.Const(0, ew)), Len: c.Const(uint64(n), 64), EW: ew, Bool: isB, Signed: sg}
+		if tot, ew, isB, sg, ok := flatArray(u); ok {
+			return BArrV{A: c.ConstArr(ew, c.Const(0, ew)), Len: c.Const(uint64(tot), 64), EW: ew, Bool: isB, Signed: sg}
 		}
 		el := make([]Value, n)
 		for i := range el {
